@@ -615,14 +615,26 @@ def _score_term_reads_the_corrected_integrand(ctx: Ctx):
     rd = ReachingDefs(f.node)
     # the score term: <X>.detach() * <log-probability of the sample>
     score_uses, mean_uses = [], []
+    transformed = []
     for n in own_nodes(f.node):
         if isinstance(n, ast.BinOp) and isinstance(n.op, ast.Mult):
             for a, b in ((n.left, n.right), (n.right, n.left)):
-                if isinstance(a, ast.Call) and isinstance(a.func, ast.Attribute) and a.func.attr == "detach" \
-                        and isinstance(a.func.value, ast.Name) and any(
-                            isinstance(c, ast.Call) and isinstance(c.func, ast.Attribute) and c.func.attr == "log_prob"
-                            for c in rd.derives(b).calls()):
-                    score_uses.append(a.func.value)
+                if isinstance(a, ast.Call) and isinstance(a.func, ast.Attribute) and a.func.attr == "detach" and any(
+                        isinstance(c, ast.Call) and isinstance(c.func, ast.Attribute) and c.func.attr == "log_prob"
+                        for c in rd.derives(b).calls()):
+                    if isinstance(a.func.value, ast.Name):
+                        score_uses.append(a.func.value)
+                    else:
+                        transformed.append(a)
+    if transformed:
+        # the weight of log p(b) in the score term is the integrand ITSELF (detached): E[(f - c) grad log p] is the gradient of the
+        # expectation. Centring it by the mean of the same samples (a baseline that does not leave the own sample out), scaling or
+        # clamping it changes the expected gradient - by the factor (N - 1) / N for the batch mean, to zero for a single sample.
+        col.ob("G16", "S12", f"{rel}::DirectEstimator.__call__::score-term-reads-the-corrected-integrand", False,
+               f"the score-function term weights log p(b) by `{u(transformed[0])[:70]}`, a transformation of the integrand instead of the (corrected) "
+               f"integrand itself: the expected gradient is no longer the gradient of the expectation (a same-sample mean baseline shrinks it by "
+               f"(N - 1) / N; nothing is left for one sample)", rel, transformed[0].lineno, sample=u(transformed[0])[:100])
+        return
     names = {x.id for x in score_uses}
     for n in own_nodes(f.node):
         if isinstance(n, ast.Assign) and isinstance(n.value, ast.Call) and isinstance(n.value.func, ast.Attribute) \
